@@ -96,11 +96,12 @@ def gen_case(r, index, tier):
     # a flow that places the same netlist again and again while the area estimates of its soft blocks are being revised
     # (preliminary estimates are smaller): every layout of the sequence is judged
     softs = [m["name"] for m in nl["modules"] if m["kind"] == "soft" and not m.get("boxes")]
-    if softs and r.chance(0.2):
+    if softs and r.chance(0.3):
         for _ in range(r.randint(4, 8)):
             trials.append({"seed": r.below(1 << 31), "mode": "mt", "bits": 0, "alt": False, "verbose": False})
         for t in trials[:-1]:
             t["areas"] = {n: r.choice([0.25, 0.5, 0.5, 0.75]) for n in softs if r.chance(0.7)}
+            t["reuse"] = False      # every revision is a new netlist object (the previous one is dropped)
     return {"engine": "c14", "die": die, "net": nl, "nfloorplans": ntr, "trials": trials, "alt_die": alt}
 
 
